@@ -59,10 +59,8 @@ McScnOf(s) == CASE s = "bu" -> ScnBu [] s = "temp" -> ScnTemp [] s = "unrep" -> 
 
 Bound == TLCGet("level") <= MaxLevel
 View  == <<scn, blk, env, enabled, reps, unrep, grp, genv, err>>
-Vars  == [scn |-> scn, dyn |-> [i \in 1..N |-> <<blk[i].bu, blk[i].t[1], blk[i].w>>], env |-> env, enabled |-> enabled,
-          reps |-> reps, unrep |-> unrep, grp |-> [g \in Idx(grp) |-> <<grp[g].id, grp[g].mem>>], genv |-> genv, err |-> err]
-Emit  == PrintT(ToJson([lvl |-> TLCGet("level"), from |-> Vars, act |-> act', to |-> Vars']))
-EmitState == PrintT(ToJson([st |-> Vars, obs |-> Obs]))
+\* one JSON line per explored edge: the behaviour that ends with it and the observation after it
+Emit  == PrintT(ToJson([scn |-> scn, path |-> hist', obs |-> Obs']))
 \* the scenario itself, once per initial state (the adapter builds the core and the settings from it)
 EmitScn == TLCGet("level") = 1 =>
     PrintT(ToJson([scenario |-> scn, xs |-> [i \in 1..N |-> IF Two THEN IdText(S.xs[i]) ELSE Alphabet[S.xs[i][1]]], blk |-> blk,
